@@ -376,12 +376,17 @@ func (ex *Exec) pushEdge(fr *Frame, from, to *ssa.BasicBlock, st *State, incomin
 	}
 	if fr == ex.top {
 		for _, li := range fr.loops {
-			if li.spec == nil || len(li.spec.AtExit) == 0 || !li.blocks[from] || li.blocks[to] {
-				continue
+			// the loop's region: its cycle plus the blocks written inside the loop statement that are not part of the
+			// cycle (bodies ending in break or return). An exit is an edge from the region to the code after the loop;
+			// returns never get there and are covered by return guards.
+			inRegion := func(b *ssa.BasicBlock) bool {
+				if li.blocks[b] {
+					return true
+				}
+				bp := blockPos(b)
+				return li.lexStart.IsValid() && bp.IsValid() && li.lexStart <= bp && bp < li.lexEnd
 			}
-			if tp := blockPos(to); li.lexStart.IsValid() && tp.IsValid() && li.lexStart <= tp && tp < li.lexEnd {
-				// a block written inside the loop that is not part of the cycle (return, panic): not an exit to the code
-				// after the loop; returns are covered by return guards
+			if li.spec == nil || len(li.spec.AtExit) == 0 || !inRegion(from) || inRegion(to) {
 				continue
 			}
 			name := fmt.Sprintf("%s#loop%d", funcKey(ex.top.fn), li.number)
